@@ -17,8 +17,8 @@
 (***************************************************************************)
 EXTENDS Selection, TraceKit
 CONSTANTS Want, MinPop, MinDepth, MinHistories
-VARIABLES l, fails, prevS, prevL, nsel, nless, nsort, maxpop, maxdepth, lists, hists, drift, done
-tvars == <<l, fails, prevS, prevL, nsel, nless, nsort, maxpop, maxdepth, lists, hists, drift, done>>
+VARIABLES l, fails, prevS, prevL, nsel, nless, nsort, maxpop, maxdepth, lists, hists, nlimbo, drift, done
+tvars == <<l, fails, prevS, prevL, nsel, nless, nsort, maxpop, maxdepth, lists, hists, nlimbo, drift, done>>
 
 NQueries == 1 + Len(Selectors) + Len(SpecSyms) + Len(SpecSyms) * Len(SpecSyms)
 RECURSIVE Pow(_, _)
@@ -97,8 +97,7 @@ ListingFails(i, r) ==
 \* ---- History: a population, a sequence of lifecycle operations, then queries about every session ever created
 HistoryWF(r) ==
   /\ {"in", "sessions", "ops", "queries"} \subseteq DOMAIN r /\ "h" \in DOMAIN r.in
-  /\ \A i \in DOMAIN r.sessions : {"id", "name", "labels", "csec", "cnano", "alive", "file", "terminated"} \subseteq DOMAIN r.sessions[i]
-  /\ \A i \in DOMAIN r.sessions : r.sessions[i].alive = (r.sessions[i].file /\ ~r.sessions[i].terminated)
+  /\ \A i \in DOMAIN r.sessions : {"id", "name", "labels", "csec", "cnano", "file", "archive", "sabotaged"} \subseteq DOMAIN r.sessions[i]
   /\ \A k \in DOMAIN r.queries : {"q", "specs", "err", "out"} \subseteq DOMAIN r.queries[k] /\ QWF(r.queries[k].q)
   /\ \A k \in DOMAIN r.ops : {"op", "err"} \subseteq DOMAIN r.ops[k]
 HQ(qr) == [q |-> IF qr.q.kind = "labels" THEN [kind |-> "labels", reqs |-> Selectors[qr.q.sel]] ELSE [kind |-> qr.q.kind],
@@ -107,11 +106,12 @@ HistoryFails(i, r) ==
   IF ~HistoryWF(r) THEN <<Fail(i, "C40_TraceAccepted")>>
   ELSE Chk(Want, i, "C40_ExactSelection", C40_ExactSelection(r.sessions, [k \in DOMAIN r.queries |-> HQ(r.queries[k])]))
 HistErrors(r) == Cardinality({k \in DOMAIN r.ops : r.ops[k].err # ""})
+HistLimbo(r) == Cardinality(LimboIdx(r.sessions))
 
 Max(a, b) == IF a > b THEN a ELSE b
 PathDepth(r) == Max(Len(r.a), Len(r.b))
 TInit == /\ l = 1 /\ fails = <<>> /\ prevS = <<>> /\ prevL = <<>> /\ nsel = 0 /\ nless = 0 /\ nsort = 0 /\ maxpop = 0 /\ maxdepth = 0
-         /\ lists = {} /\ hists = {} /\ drift = 0 /\ done = FALSE
+         /\ lists = {} /\ hists = {} /\ nlimbo = 0 /\ drift = 0 /\ done = FALSE
 Step == /\ l <= NRec
         /\ LET r == Trace[l] IN
            IF r.ev = "Select" THEN
@@ -120,29 +120,30 @@ Step == /\ l <= NRec
              /\ prevS' = IF wf THEN <<[pop |-> r.in.pop, qi |-> QIndex(r.in.q)]>> ELSE prevS
              /\ nsel' = IF wf THEN nsel + 1 ELSE nsel
              /\ maxpop' = IF wf THEN Max(maxpop, Len(r.in.pop)) ELSE maxpop
-             /\ UNCHANGED <<prevL, nless, nsort, maxdepth, lists, hists, drift>>
+             /\ UNCHANGED <<prevL, nless, nsort, maxdepth, lists, hists, nlimbo, drift>>
            ELSE IF r.ev = "Less" THEN
              LET wf == LessWF(r) IN
              /\ fails' = Cap(fails \o LessFails(l, r))
              /\ prevL' = IF wf THEN <<[a |-> r.a, b |-> r.b]>> ELSE prevL
              /\ nless' = IF wf THEN nless + 1 ELSE nless
              /\ maxdepth' = IF wf THEN Max(maxdepth, PathDepth(r)) ELSE maxdepth
-             /\ UNCHANGED <<prevS, nsel, nsort, maxpop, lists, hists, drift>>
+             /\ UNCHANGED <<prevS, nsel, nsort, maxpop, lists, hists, nlimbo, drift>>
            ELSE IF r.ev = "Sort" THEN
              /\ fails' = Cap(fails \o SortFails(l, r))
              /\ nsort' = nsort + 1
-             /\ UNCHANGED <<prevS, prevL, nsel, nless, maxpop, maxdepth, lists, hists, drift>>
+             /\ UNCHANGED <<prevS, prevL, nsel, nless, maxpop, maxdepth, lists, hists, nlimbo, drift>>
            ELSE IF r.ev = "Listing" THEN
              /\ fails' = Cap(fails \o ListingFails(l, r))
              /\ lists' = IF ListingWF(r) THEN lists \cup {<<Len(r.in.conf), Len(r.in.probA), Len(r.in.probB)>>} ELSE lists
-             /\ UNCHANGED <<prevS, prevL, nsel, nless, nsort, maxpop, maxdepth, hists, drift>>
+             /\ UNCHANGED <<prevS, prevL, nsel, nless, nsort, maxpop, maxdepth, hists, nlimbo, drift>>
            ELSE IF r.ev = "History" THEN
              /\ fails' = Cap(fails \o HistoryFails(l, r))
              /\ hists' = IF HistoryWF(r) THEN hists \cup {r.in.h} ELSE hists
              /\ drift' = IF HistoryWF(r) THEN drift + HistErrors(r) ELSE drift      \* operations whose error return makes the outcome ambiguous
+             /\ nlimbo' = IF HistoryWF(r) THEN nlimbo + HistLimbo(r) ELSE nlimbo
              /\ UNCHANGED <<prevS, prevL, nsel, nless, nsort, maxpop, maxdepth, lists>>
            ELSE /\ fails' = Cap(Append(fails, Fail(l, "C40_TraceAccepted")))
-                /\ UNCHANGED <<prevS, prevL, nsel, nless, nsort, maxpop, maxdepth, lists, hists, drift>>
+                /\ UNCHANGED <<prevS, prevL, nsel, nless, nsort, maxpop, maxdepth, lists, hists, nlimbo, drift>>
         /\ l' = l + 1 /\ UNCHANGED done
 \* a full run: every population and query, every ordered pair of paths, and listings below, at and above the limit
 Covered == NRec > 1 =>
@@ -156,8 +157,8 @@ Finish == /\ l = NRec + 1 /\ ~done
           /\ WriteResult(l - 1,
                          Cap(fails \o (IF "C40_DomainCovered" \in Want /\ ~Covered THEN <<Fail(NRec, "C40_DomainCovered")>> ELSE <<>>)),
                          [stat_select_cases |-> nsel, stat_less_pairs |-> nless, stat_sort_cases |-> nsort,
-                          stat_listings |-> Cardinality(lists), stat_histories |-> Cardinality(hists), stat_history_errors |-> drift])
-          /\ done' = TRUE /\ UNCHANGED <<l, fails, prevS, prevL, nsel, nless, nsort, maxpop, maxdepth, lists, hists, drift>>
+                          stat_listings |-> Cardinality(lists), stat_histories |-> Cardinality(hists), stat_history_errors |-> drift, stat_limbo_sessions |-> nlimbo])
+          /\ done' = TRUE /\ UNCHANGED <<l, fails, prevS, prevL, nsel, nless, nsort, maxpop, maxdepth, lists, hists, nlimbo, drift>>
 TNext == Step \/ Finish
 TSpec == TInit /\ [][TNext]_tvars
 ====
